@@ -73,6 +73,8 @@ def prepare(res, need_driver=True, asan=False, drivers=("ovnimodel",)):
 
 def run_lines(exe, lines, timeout=600, env=None):
     """Feed lines, return output lines (same count expected)."""
+    if not lines:
+        return 0, [], ""
     data = "\n".join(lines) + "\n"
     if env is None:
         env = dict(os.environ)
